@@ -1,9 +1,15 @@
 //! C13 — market-data attribution. For every `(ExchangeId, SubKind)` arm of `DynamicStreams::init`:
 //! the real `WebSocketSubMapper::map` builds the instrument map from `Keyed<usize, MarketDataInstrument>`
-//! subscriptions (market formatted from the underlying) or from `MarketInstrumentData<usize>` subscriptions
-//! (`name_exchange` verbatim: the type the engine's indexed market stream uses; `@<name>:<kind>` tokens), synthesised venue JSON is deserialised by the real serde types and passed through the
-//! real `Transformer::transform` (`StatelessTransformer`, or the Binance L2 transformers initialised afresh
-//! per message with a snapshot at sequence 100 so that the update is a valid first update).
+//! subscriptions (market formatted from the underlying), from `MarketInstrumentData<usize>` subscriptions
+//! (`name_exchange` verbatim: the type the engine's indexed market stream uses; `@<name>:<kind>` tokens) or from
+//! un-keyed `MarketDataInstrument` subscriptions (the README form: the instrument key is the instrument itself;
+//! `=<base>:<quote>:<kind>` tokens); synthesised venue JSON is deserialised and transformed by THE TRANSFORMER THE
+//! REPOSITORY BINDS to the pair: `<<E as StreamSelector<Instrument, Kind>>::Stream as TransformerOf>::T` (the
+//! transformer type parameter of the connector's `ExchangeWsStream<_>`), its `ExchangeTransformer::init`, its own
+//! associated `Transformer::Input` type (deserialised from the JSON text by serde) and its `Transformer::transform`.
+//! Neither the transformer nor the venue message type is named by this harness. The Binance L2 transformers come
+//! out of the same projection and are initialised afresh per message with a snapshot at sequence 100 so that the
+//! update is a valid first update (all other kinds get no initial snapshots).
 //! Bitfinex's channel-id re-keying (`BitfinexWebSocketSubValidator::validate`, which needs a live socket)
 //! is applied to the map directly from a deserialised `BitfinexPlatformEvent::Subscribed`.
 //!
@@ -13,37 +19,28 @@ use barter_data::{
     Identifier,
     books::{Level, OrderBook},
     error::DataError,
-    event::{DataKind, MarketEvent, MarketIter},
-    instrument::MarketInstrumentData,
+    event::{DataKind, MarketEvent},
     exchange::{
-        Connector,
-        binance::{
-            book::l1::BinanceOrderBookL1,
-            futures::{
-                BinanceFuturesUsd, l2::BinanceFuturesUsdOrderBooksL2Transformer,
-                liquidation::BinanceLiquidation,
-            },
-            spot::{BinanceSpot, l2::BinanceSpotOrderBooksL2Transformer},
-            trade::BinanceTrade,
-        },
+        Connector, StreamSelector,
+        binance::{futures::BinanceFuturesUsd, spot::BinanceSpot},
         bitfinex::{
             Bitfinex,
-            message::BitfinexMessage,
             subscription::{BitfinexPlatformEvent, BitfinexSubResponse},
         },
-        bitmex::{Bitmex, trade::BitmexTrade},
-        bybit::{futures::BybitPerpetualsUsd, message::BybitMessage, spot::BybitSpot},
-        coinbase::{Coinbase, trade::CoinbaseTrade},
+        bitmex::Bitmex,
+        bybit::{futures::BybitPerpetualsUsd, spot::BybitSpot},
+        coinbase::Coinbase,
         gateio::{
             future::{GateioFuturesBtc, GateioFuturesUsd},
             option::GateioOptions,
-            perpetual::{GateioPerpetualsBtc, GateioPerpetualsUsd, trade::GateioFuturesTrades},
-            spot::{GateioSpot, trade::GateioSpotTrade},
+            perpetual::{GateioPerpetualsBtc, GateioPerpetualsUsd},
+            spot::GateioSpot,
         },
-        kraken::{Kraken, book::l1::KrakenOrderBookL1, trade::KrakenTrades},
-        okx::{Okx, trade::OkxTrades},
+        kraken::Kraken,
+        okx::Okx,
         subscription::ExchangeSub,
     },
+    instrument::{InstrumentData, MarketInstrumentData},
     subscriber::mapper::{SubscriptionMapper, WebSocketSubMapper},
     subscription::{
         Map, Subscription, SubscriptionKind,
@@ -51,26 +48,28 @@ use barter_data::{
         liquidation::{Liquidation, Liquidations},
         trade::{PublicTrade, PublicTrades},
     },
-    transformer::{ExchangeTransformer, stateless::StatelessTransformer},
+    transformer::ExchangeTransformer,
 };
 use barter_instrument::{
     Keyed, Side,
     exchange::ExchangeId,
     instrument::{
         kind::option::{OptionExercise, OptionKind},
-        name::InstrumentNameExchange,
         market_data::{
             MarketDataInstrument,
             kind::{MarketDataFutureContract, MarketDataInstrumentKind, MarketDataOptionContract},
         },
+        name::InstrumentNameExchange,
     },
 };
-use barter_integration::{Transformer, subscription::SubscriptionId};
+use barter_integration::{
+    Transformer, protocol::StreamParser, stream::ExchangeStream, subscription::SubscriptionId,
+};
 use chrono::{DateTime, NaiveDate, TimeZone, Utc};
-use futures::executor::block_on;
+use futures::{Stream, executor::block_on};
 use rust_decimal::Decimal;
-use serde::de::DeserializeOwned;
 use smol_str::ToSmolStr;
+use std::marker::PhantomData;
 use tokio::sync::mpsc;
 use vh::*;
 
@@ -80,8 +79,12 @@ type VInst = MarketInstrumentData<usize>;
 
 /// The instruments of one `sub` line: a Rust subscription list has ONE instrument type.
 enum Subs {
+    /// `Subscription<_, Keyed<usize, MarketDataInstrument>, _>`: key = position
     Formatted(Vec<MarketDataInstrument>),
+    /// `Subscription<_, MarketInstrumentData<usize>, _>`: key = position, market = `name_exchange`
     Verbatim(Vec<(String, MarketDataInstrumentKind)>),
+    /// `Subscription<_, MarketDataInstrument, _>`: key = the instrument itself
+    Unkeyed(Vec<MarketDataInstrument>),
 }
 
 // ------------------------------------------------------------------------------------------ parsing
@@ -155,11 +158,13 @@ fn parse_verbatim(tok: &str) -> Option<(String, MarketDataInstrumentKind)> {
     Some((f[0].to_string(), parse_kind_fields(&f[1..])?))
 }
 
-/// all-formatted or all-verbatim (mixed lists do not exist in Rust: `bad-op`, as in the Lean driver)
+/// all-formatted, all-verbatim or all-un-keyed (mixed lists do not exist in Rust: `bad-op`, as in the Lean driver)
 fn parse_subs(toks: &[String]) -> Option<Subs> {
     if !toks.is_empty() && toks.iter().all(|t| t.starts_with('@')) {
         Some(Subs::Verbatim(toks.iter().map(|t| parse_verbatim(t)).collect::<Option<Vec<_>>>()?))
-    } else if toks.iter().all(|t| !t.starts_with('@')) {
+    } else if !toks.is_empty() && toks.iter().all(|t| t.starts_with('=')) {
+        Some(Subs::Unkeyed(toks.iter().map(|t| parse_inst(&t[1..])).collect::<Option<Vec<_>>>()?))
+    } else if toks.iter().all(|t| !t.starts_with('@') && !t.starts_with('=')) {
         Some(Subs::Formatted(toks.iter().map(|t| parse_inst(t)).collect::<Option<Vec<_>>>()?))
     } else {
         None
@@ -227,20 +232,56 @@ fn fmt_levels(ls: &[Level]) -> String {
         .join(" ")
 }
 
+/// How an instrument key is printed: the position for the keyed representations; for the un-keyed one the
+/// instrument itself in the token syntax of the `sub` line (`AssetNameInternal` has lower-cased base and quote).
+trait KeyFmt: Clone + Eq {
+    fn show(&self) -> String;
+}
+
+impl KeyFmt for usize {
+    fn show(&self) -> String {
+        self.to_string()
+    }
+}
+
+fn kind_token(kind: &MarketDataInstrumentKind) -> String {
+    let ymd = |t: &DateTime<Utc>| t.date_naive().format("%Y%m%d").to_string();
+    match kind {
+        MarketDataInstrumentKind::Spot => "S".into(),
+        MarketDataInstrumentKind::Perpetual => "P".into(),
+        MarketDataInstrumentKind::Future(c) => format!("F{}", ymd(&c.expiry)),
+        MarketDataInstrumentKind::Option(c) => format!(
+            "O{}:{}:{}",
+            ymd(&c.expiry),
+            c.strike,
+            match c.kind {
+                OptionKind::Call => "C",
+                OptionKind::Put => "P",
+            }
+        ),
+    }
+}
+
+impl KeyFmt for MarketDataInstrument {
+    fn show(&self) -> String {
+        format!("{}:{}:{}", self.base, self.quote, kind_token(&self.kind))
+    }
+}
+
 trait Obs: Sized {
     fn obs(&self, out: &mut Vec<String>);
     /// the accessor of `MarketEvent<_, DataKind>` that belongs to this kind
-    fn from_dk(dk: &MarketEvent<usize, DataKind>) -> Option<MarketEvent<&usize, &Self>>;
+    fn from_dk<Key>(dk: &MarketEvent<Key, DataKind>) -> Option<MarketEvent<&Key, &Self>>;
 }
 
 /// The event as consumers of combined streams see it (`DynamicStreams::select_all`, `MultiStreamBuilder`):
 /// converted to `MarketEvent<_, DataKind>` by the real `From` impl; `dk <kind_name> 1` iff exactly the accessor
 /// of its own kind answers and hands back the same key, exchange, times and payload.
-fn dk_line<T: Obs + Clone>(ev: &MarketEvent<usize, T>) -> String
+fn dk_line<Key: KeyFmt, T: Obs + Clone>(ev: &MarketEvent<Key, T>) -> String
 where
-    MarketEvent<usize, DataKind>: From<MarketEvent<usize, T>>,
+    MarketEvent<Key, DataKind>: From<MarketEvent<Key, T>>,
 {
-    let dk: MarketEvent<usize, DataKind> = ev.clone().into();
+    let dk: MarketEvent<Key, DataKind> = ev.clone().into();
     let answering = [
         dk.as_public_trade().is_some(),
         dk.as_order_book_l1().is_some(),
@@ -265,7 +306,7 @@ where
 }
 
 impl Obs for PublicTrade {
-    fn from_dk(dk: &MarketEvent<usize, DataKind>) -> Option<MarketEvent<&usize, &Self>> {
+    fn from_dk<Key>(dk: &MarketEvent<Key, DataKind>) -> Option<MarketEvent<&Key, &Self>> {
         dk.as_public_trade()
     }
     fn obs(&self, out: &mut Vec<String>) {
@@ -285,7 +326,7 @@ impl Obs for PublicTrade {
 }
 
 impl Obs for OrderBookL1 {
-    fn from_dk(dk: &MarketEvent<usize, DataKind>) -> Option<MarketEvent<&usize, &Self>> {
+    fn from_dk<Key>(dk: &MarketEvent<Key, DataKind>) -> Option<MarketEvent<&Key, &Self>> {
         dk.as_order_book_l1()
     }
     fn obs(&self, out: &mut Vec<String>) {
@@ -298,7 +339,7 @@ impl Obs for OrderBookL1 {
 }
 
 impl Obs for OrderBookEvent {
-    fn from_dk(dk: &MarketEvent<usize, DataKind>) -> Option<MarketEvent<&usize, &Self>> {
+    fn from_dk<Key>(dk: &MarketEvent<Key, DataKind>) -> Option<MarketEvent<&Key, &Self>> {
         dk.as_order_book()
     }
     fn obs(&self, out: &mut Vec<String>) {
@@ -314,7 +355,7 @@ impl Obs for OrderBookEvent {
 }
 
 impl Obs for Liquidation {
-    fn from_dk(dk: &MarketEvent<usize, DataKind>) -> Option<MarketEvent<&usize, &Self>> {
+    fn from_dk<Key>(dk: &MarketEvent<Key, DataKind>) -> Option<MarketEvent<&Key, &Self>> {
         dk.as_liquidation()
     }
     fn obs(&self, out: &mut Vec<String>) {
@@ -327,9 +368,9 @@ impl Obs for Liquidation {
     }
 }
 
-fn emit<T: Obs + Clone>(results: Vec<Result<MarketEvent<usize, T>, DataError>>, out: &mut Vec<String>)
+fn emit<Key: KeyFmt, T: Obs + Clone>(results: Vec<Result<MarketEvent<Key, T>, DataError>>, out: &mut Vec<String>)
 where
-    MarketEvent<usize, DataKind>: From<MarketEvent<usize, T>>,
+    MarketEvent<Key, DataKind>: From<MarketEvent<Key, T>>,
 {
     out.push(format!("nev {}", results.len()));
     for r in results {
@@ -337,7 +378,7 @@ where
             Ok(ev) => {
                 out.push(format!(
                     "ev {} {} {}",
-                    ev.instrument,
+                    ev.instrument.show(),
                     ev.exchange.as_str(),
                     ev.time_exchange.timestamp_millis()
                 ));
@@ -360,12 +401,19 @@ where
     }
 }
 
-fn fmt_map(map: &Map<usize>) -> String {
-    let mut entries: Vec<(&SubscriptionId, &usize)> = map.0.iter().collect();
-    entries.sort_by_key(|(_, k)| **k);
+/// `map <key>=<subscription id> ...` in subscription order: an entry is listed at the position of the LAST
+/// subscription that carries its key (for positional keys that is the key itself; an un-keyed instrument
+/// subscribed twice has one key and one id).
+fn fmt_map<Key: KeyFmt>(map: &Map<Key>, order: &[Key]) -> String {
+    let mut entries: Vec<(usize, &SubscriptionId, &Key)> = map
+        .0
+        .iter()
+        .map(|(id, k)| (order.iter().rposition(|o| o == k).unwrap_or(usize::MAX), id, k))
+        .collect();
+    entries.sort_by(|a, b| (a.0, &a.1.0).cmp(&(b.0, &b.1.0)));
     let body = entries
         .iter()
-        .map(|(id, k)| format!("{k}={}", id.0))
+        .map(|(_, id, k)| format!("{}={}", k.show(), id.0))
         .collect::<Vec<_>>()
         .join(" ");
     format!("map {body}")
@@ -373,111 +421,192 @@ fn fmt_map(map: &Map<usize>) -> String {
 
 // ------------------------------------------------------------------------------------------ real code
 
-fn map_for<E, K>(kind: K, subs: &Subs) -> Map<usize>
+/// Projection of the transformer out of the stream type a connector binds in its `impl StreamSelector`
+/// (`type Stream = ExchangeWsStream<T>` = `ExchangeStream<WebSocketParser, WsStream, T>`, barter-data/src/lib.rs:166).
+trait TransformerOf {
+    type T;
+}
+
+impl<P, S, T> TransformerOf for ExchangeStream<P, S, T>
+where
+    P: StreamParser,
+    S: Stream,
+    T: Transformer,
+{
+    type T = T;
+}
+
+/// THE transformer of `(connector E, instrument type I, subscription kind K)` as the repository binds it.
+type SelT<E, I, K> = <<E as StreamSelector<I, K>>::Stream as TransformerOf>::T;
+
+/// The initial snapshots handed to `ExchangeTransformer::init`: none, except for L2 books (one empty
+/// snapshot at sequence 100 per subscribed instrument; the stateless transformers ignore the argument).
+trait Snaps: SubscriptionKind {
+    fn snaps<Key: Clone>(map: &Map<Key>, exchange: ExchangeId) -> Vec<MarketEvent<Key, Self::Event>>;
+}
+
+impl Snaps for PublicTrades {
+    fn snaps<Key: Clone>(_: &Map<Key>, _: ExchangeId) -> Vec<MarketEvent<Key, Self::Event>> {
+        vec![]
+    }
+}
+
+impl Snaps for OrderBooksL1 {
+    fn snaps<Key: Clone>(_: &Map<Key>, _: ExchangeId) -> Vec<MarketEvent<Key, Self::Event>> {
+        vec![]
+    }
+}
+
+impl Snaps for Liquidations {
+    fn snaps<Key: Clone>(_: &Map<Key>, _: ExchangeId) -> Vec<MarketEvent<Key, Self::Event>> {
+        vec![]
+    }
+}
+
+impl Snaps for OrderBooksL2 {
+    fn snaps<Key: Clone>(map: &Map<Key>, exchange: ExchangeId) -> Vec<MarketEvent<Key, Self::Event>> {
+        map.0
+            .values()
+            .map(|k| MarketEvent {
+                time_exchange: Utc.timestamp_millis_opt(0).unwrap(),
+                time_received: Utc.timestamp_millis_opt(0).unwrap(),
+                exchange,
+                instrument: k.clone(),
+                kind: OrderBookEvent::Snapshot(OrderBook::new(
+                    100,
+                    None,
+                    Vec::<Level>::new(),
+                    Vec::<Level>::new(),
+                )),
+            })
+            .collect()
+    }
+}
+
+/// One subscribed `(connector, kind)` pair with one instrument representation.
+trait Session {
+    fn map_line(&self) -> String;
+    /// Bitfinex `subscribed` confirmation
+    fn conf(&mut self, chan: &str, symbol: &str, chan_id: u32);
+    /// one venue message through the bound transformer
+    fn msg(&self, json: &str, out: &mut Vec<String>);
+}
+
+struct Sess<E, I: InstrumentData, K> {
+    map: Map<I::Key>,
+    /// the keys of the subscriptions, in subscription order
+    order: Vec<I::Key>,
+    phantom: PhantomData<(E, K)>,
+}
+
+impl<E, I, K> Sess<E, I, K>
 where
     E: Connector,
+    I: InstrumentData,
     K: SubscriptionKind,
-    Subscription<E, Inst, K>: Identifier<E::Channel> + Identifier<E::Market>,
-    Subscription<E, VInst, K>: Identifier<E::Channel> + Identifier<E::Market>,
+    Subscription<E, I, K>: Identifier<E::Channel> + Identifier<E::Market>,
 {
-    match subs {
-        Subs::Formatted(insts) => {
-            let subs: Vec<Subscription<E, Inst, K>> = insts
-                .iter()
-                .enumerate()
-                .map(|(k, i)| Subscription::new(E::default(), Keyed::new(k, i.clone()), kind.clone()))
-                .collect();
-            WebSocketSubMapper::map(&subs).instrument_map
-        }
-        // the third `Identifier<Market>` impl of every connector: `name_exchange` verbatim
-        Subs::Verbatim(insts) => {
-            let subs: Vec<Subscription<E, VInst, K>> = insts
-                .iter()
-                .enumerate()
-                .map(|(k, (name, ik))| {
-                    Subscription::new(
-                        E::default(),
-                        MarketInstrumentData {
-                            key: k,
-                            name_exchange: InstrumentNameExchange::new(name.as_str()),
-                            kind: ik.clone(),
-                        },
-                        kind.clone(),
-                    )
-                })
-                .collect();
-            WebSocketSubMapper::map(&subs).instrument_map
+    /// the real `WebSocketSubMapper::map` over `Subscription<E, I, K>`
+    fn new(kind: K, instruments: Vec<I>) -> Self {
+        let order = instruments.iter().map(|i| i.key().clone()).collect();
+        let subs: Vec<Subscription<E, I, K>> = instruments
+            .into_iter()
+            .map(|i| Subscription::new(E::default(), i, kind.clone()))
+            .collect();
+        Self {
+            map: WebSocketSubMapper::map(&subs).instrument_map,
+            order,
+            phantom: PhantomData,
         }
     }
 }
 
-fn run_stateless<E, K, I>(map: &Map<usize>, json: &str, out: &mut Vec<String>)
+impl<E, I, K> Session for Sess<E, I, K>
 where
-    E: Connector + Send,
-    K: SubscriptionKind + Send,
+    E: StreamSelector<I, K>,
+    I: InstrumentData,
+    I::Key: KeyFmt,
+    K: SubscriptionKind + Snaps,
     K::Event: Obs + Clone,
-    MarketEvent<usize, DataKind>: From<MarketEvent<usize, K::Event>>,
-    I: Identifier<Option<SubscriptionId>> + DeserializeOwned,
-    MarketIter<usize, K::Event>: From<(ExchangeId, usize, I)>,
+    <E as StreamSelector<I, K>>::Stream: TransformerOf,
+    SelT<E, I, K>: ExchangeTransformer<E, I::Key, K>,
+    MarketEvent<I::Key, DataKind>: From<MarketEvent<I::Key, K::Event>>,
 {
-    let (tx, _rx) = mpsc::unbounded_channel();
-    let mut transformer =
-        block_on(StatelessTransformer::<E, usize, K, I>::init(map.clone(), &[], tx)).expect("init");
-    match serde_json::from_str::<I>(json) {
-        Ok(input) => emit(transformer.transform(input), out),
-        Err(e) => out.push(format!("deser-error {}", e.to_string().replace(' ', "_"))),
+    fn map_line(&self) -> String {
+        fmt_map(&self.map, &self.order)
     }
-}
 
-fn l2_snapshots(map: &Map<usize>, exchange: ExchangeId) -> Vec<MarketEvent<usize, OrderBookEvent>> {
-    map.0
-        .values()
-        .map(|k| MarketEvent {
-            time_exchange: Utc.timestamp_millis_opt(0).unwrap(),
-            time_received: Utc.timestamp_millis_opt(0).unwrap(),
-            exchange,
-            instrument: *k,
-            kind: OrderBookEvent::Snapshot(OrderBook::new(
-                100,
-                None,
-                Vec::<Level>::new(),
-                Vec::<Level>::new(),
-            )),
-        })
-        .collect()
-}
-
-fn run_l2<T>(map: &Map<usize>, exchange: ExchangeId, json: &str, out: &mut Vec<String>)
-where
-    T: Transformer<Output = MarketEvent<usize, OrderBookEvent>, Error = DataError>,
-    T::Input: DeserializeOwned,
-    T::OutputIter: IntoIterator<Item = Result<MarketEvent<usize, OrderBookEvent>, DataError>>,
-    T: L2Init,
-{
-    let snaps = l2_snapshots(map, exchange);
-    let mut transformer = T::make(map.clone(), &snaps);
-    match serde_json::from_str::<T::Input>(json) {
-        Ok(input) => emit(transformer.transform(input).into_iter().collect(), out),
-        Err(e) => out.push(format!("deser-error {}", e.to_string().replace(' ', "_"))),
+    /// The `Subscribed` arm of `BitfinexWebSocketSubValidator::validate` (bitfinex/validator.rs:93-110),
+    /// applied to the map directly (the validator itself needs a live WebSocket).
+    fn conf(&mut self, chan: &str, symbol: &str, chan_id: u32) {
+        let json = format!(
+            r#"{{"event":"subscribed","channel":{},"chanId":{},"symbol":{},"pair":"X"}}"#,
+            q(chan),
+            chan_id,
+            q(symbol)
+        );
+        let event: BitfinexPlatformEvent = serde_json::from_str(&json).expect("subscribed event");
+        let BitfinexPlatformEvent::Subscribed(response) = event else {
+            panic!("not a subscribed event")
+        };
+        let BitfinexSubResponse {
+            channel,
+            market,
+            channel_id,
+        } = &response;
+        let subscription_id = ExchangeSub::from((channel, market)).id();
+        if let Some(subscription) = self.map.0.remove(&subscription_id) {
+            self.map
+                .0
+                .insert(SubscriptionId(channel_id.0.to_smolstr()), subscription);
+        }
     }
-}
 
-trait L2Init: Sized {
-    fn make(map: Map<usize>, snaps: &[MarketEvent<usize, OrderBookEvent>]) -> Self;
-}
-impl L2Init for BinanceSpotOrderBooksL2Transformer<usize> {
-    fn make(map: Map<usize>, snaps: &[MarketEvent<usize, OrderBookEvent>]) -> Self {
+    /// `ExchangeTransformer::init` + serde into the transformer's OWN `Input` type + `Transformer::transform`,
+    /// all three of `SelT<E, I, K>`: the transformer type the connector's `impl StreamSelector` names.
+    fn msg(&self, json: &str, out: &mut Vec<String>) {
+        let snaps = K::snaps(&self.map, E::ID);
         let (tx, _rx) = mpsc::unbounded_channel();
-        block_on(<Self as ExchangeTransformer<BinanceSpot, usize, OrderBooksL2>>::init(map, snaps, tx))
-            .expect("l2 init")
+        let mut transformer = block_on(<SelT<E, I, K> as ExchangeTransformer<E, I::Key, K>>::init(
+            self.map.clone(),
+            &snaps,
+            tx,
+        ))
+        .expect("transformer init");
+        match serde_json::from_str::<<SelT<E, I, K> as Transformer>::Input>(json) {
+            Ok(input) => emit(transformer.transform(input).into_iter().collect(), out),
+            Err(e) => out.push(format!("deser-error {}", e.to_string().replace(' ', "_"))),
+        }
     }
 }
-impl L2Init for BinanceFuturesUsdOrderBooksL2Transformer<usize> {
-    fn make(map: Map<usize>, snaps: &[MarketEvent<usize, OrderBookEvent>]) -> Self {
-        let (tx, _rx) = mpsc::unbounded_channel();
-        block_on(<Self as ExchangeTransformer<BinanceFuturesUsd, usize, OrderBooksL2>>::init(map, snaps, tx))
-            .expect("l2 init")
-    }
+
+/// the three instrument representations of one connector type and kind value
+macro_rules! open {
+    ($E:ty, $kind:expr, $subs:expr) => {
+        match $subs {
+            Subs::Formatted(insts) => Box::new(Sess::<$E, Inst, _>::new(
+                $kind,
+                insts.iter().enumerate().map(|(k, i)| Keyed::new(k, i.clone())).collect(),
+            )) as Box<dyn Session>,
+            // the third `Identifier<Market>` impl of every connector: `name_exchange` verbatim
+            Subs::Verbatim(insts) => Box::new(Sess::<$E, VInst, _>::new(
+                $kind,
+                insts
+                    .iter()
+                    .enumerate()
+                    .map(|(k, (name, ik))| MarketInstrumentData {
+                        key: k,
+                        name_exchange: InstrumentNameExchange::new(name.as_str()),
+                        kind: ik.clone(),
+                    })
+                    .collect(),
+            )) as Box<dyn Session>,
+            // the first `Identifier<Market>` impl of every connector: `InstrumentData::Key = Self`
+            Subs::Unkeyed(insts) => {
+                Box::new(Sess::<$E, MarketDataInstrument, _>::new($kind, insts.clone())) as Box<dyn Session>
+            }
+        }
+    };
 }
 
 // ------------------------------------------------------------------------------------------ venue JSON
@@ -774,88 +903,39 @@ fn json_for(ex: &str, kind: K, m: &Msg) -> String {
     }
 }
 
-fn build_map(ex: &str, kind: K, insts: &Subs) -> Option<Map<usize>> {
+/// Names of the protocol -> connector type and kind value (the 21 arms of `DynamicStreams::init`). Which
+/// transformer and which venue message type belong to a pair is NOT in this table: `Sess` takes them from
+/// `StreamSelector::Stream`.
+fn open_session(ex: &str, kind: K, subs: &Subs) -> Option<Box<dyn Session>> {
     Some(match (ex, kind) {
-        ("binance_spot", K::Trades) => map_for::<BinanceSpot, _>(PublicTrades, insts),
-        ("binance_spot", K::L1) => map_for::<BinanceSpot, _>(OrderBooksL1, insts),
-        ("binance_spot", K::L2) => map_for::<BinanceSpot, _>(OrderBooksL2, insts),
-        ("binance_futures_usd", K::Trades) => map_for::<BinanceFuturesUsd, _>(PublicTrades, insts),
-        ("binance_futures_usd", K::L1) => map_for::<BinanceFuturesUsd, _>(OrderBooksL1, insts),
-        ("binance_futures_usd", K::L2) => map_for::<BinanceFuturesUsd, _>(OrderBooksL2, insts),
-        ("binance_futures_usd", K::Liqs) => map_for::<BinanceFuturesUsd, _>(Liquidations, insts),
-        ("bitfinex", K::Trades) => map_for::<Bitfinex, _>(PublicTrades, insts),
-        ("bitmex", K::Trades) => map_for::<Bitmex, _>(PublicTrades, insts),
-        ("bybit_spot", K::Trades) => map_for::<BybitSpot, _>(PublicTrades, insts),
-        ("bybit_perpetuals_usd", K::Trades) => map_for::<BybitPerpetualsUsd, _>(PublicTrades, insts),
-        ("coinbase", K::Trades) => map_for::<Coinbase, _>(PublicTrades, insts),
-        ("gateio_spot", K::Trades) => map_for::<GateioSpot, _>(PublicTrades, insts),
-        ("gateio_futures_usd", K::Trades) => map_for::<GateioFuturesUsd, _>(PublicTrades, insts),
-        ("gateio_futures_btc", K::Trades) => map_for::<GateioFuturesBtc, _>(PublicTrades, insts),
-        ("gateio_perpetuals_usd", K::Trades) => map_for::<GateioPerpetualsUsd, _>(PublicTrades, insts),
-        ("gateio_perpetuals_btc", K::Trades) => map_for::<GateioPerpetualsBtc, _>(PublicTrades, insts),
-        ("gateio_options", K::Trades) => map_for::<GateioOptions, _>(PublicTrades, insts),
-        ("kraken", K::Trades) => map_for::<Kraken, _>(PublicTrades, insts),
-        ("kraken", K::L1) => map_for::<Kraken, _>(OrderBooksL1, insts),
-        ("okx", K::Trades) => map_for::<Okx, _>(PublicTrades, insts),
+        ("binance_spot", K::Trades) => open!(BinanceSpot, PublicTrades, subs),
+        ("binance_spot", K::L1) => open!(BinanceSpot, OrderBooksL1, subs),
+        ("binance_spot", K::L2) => open!(BinanceSpot, OrderBooksL2, subs),
+        ("binance_futures_usd", K::Trades) => open!(BinanceFuturesUsd, PublicTrades, subs),
+        ("binance_futures_usd", K::L1) => open!(BinanceFuturesUsd, OrderBooksL1, subs),
+        ("binance_futures_usd", K::L2) => open!(BinanceFuturesUsd, OrderBooksL2, subs),
+        ("binance_futures_usd", K::Liqs) => open!(BinanceFuturesUsd, Liquidations, subs),
+        ("bitfinex", K::Trades) => open!(Bitfinex, PublicTrades, subs),
+        ("bitmex", K::Trades) => open!(Bitmex, PublicTrades, subs),
+        ("bybit_spot", K::Trades) => open!(BybitSpot, PublicTrades, subs),
+        ("bybit_perpetuals_usd", K::Trades) => open!(BybitPerpetualsUsd, PublicTrades, subs),
+        ("coinbase", K::Trades) => open!(Coinbase, PublicTrades, subs),
+        ("gateio_spot", K::Trades) => open!(GateioSpot, PublicTrades, subs),
+        ("gateio_futures_usd", K::Trades) => open!(GateioFuturesUsd, PublicTrades, subs),
+        ("gateio_futures_btc", K::Trades) => open!(GateioFuturesBtc, PublicTrades, subs),
+        ("gateio_perpetuals_usd", K::Trades) => open!(GateioPerpetualsUsd, PublicTrades, subs),
+        ("gateio_perpetuals_btc", K::Trades) => open!(GateioPerpetualsBtc, PublicTrades, subs),
+        ("gateio_options", K::Trades) => open!(GateioOptions, PublicTrades, subs),
+        ("kraken", K::Trades) => open!(Kraken, PublicTrades, subs),
+        ("kraken", K::L1) => open!(Kraken, OrderBooksL1, subs),
+        ("okx", K::Trades) => open!(Okx, PublicTrades, subs),
         _ => return None,
     })
 }
 
-fn transform(ex: &str, kind: K, map: &Map<usize>, json: &str, out: &mut Vec<String>) {
-    match (ex, kind) {
-        ("binance_spot", K::Trades) => run_stateless::<BinanceSpot, PublicTrades, BinanceTrade>(map, json, out),
-        ("binance_spot", K::L1) => run_stateless::<BinanceSpot, OrderBooksL1, BinanceOrderBookL1>(map, json, out),
-        ("binance_spot", K::L2) => run_l2::<BinanceSpotOrderBooksL2Transformer<usize>>(map, ExchangeId::BinanceSpot, json, out),
-        ("binance_futures_usd", K::Trades) => run_stateless::<BinanceFuturesUsd, PublicTrades, BinanceTrade>(map, json, out),
-        ("binance_futures_usd", K::L1) => run_stateless::<BinanceFuturesUsd, OrderBooksL1, BinanceOrderBookL1>(map, json, out),
-        ("binance_futures_usd", K::L2) => run_l2::<BinanceFuturesUsdOrderBooksL2Transformer<usize>>(map, ExchangeId::BinanceFuturesUsd, json, out),
-        ("binance_futures_usd", K::Liqs) => run_stateless::<BinanceFuturesUsd, Liquidations, BinanceLiquidation>(map, json, out),
-        ("bitfinex", K::Trades) => run_stateless::<Bitfinex, PublicTrades, BitfinexMessage>(map, json, out),
-        ("bitmex", K::Trades) => run_stateless::<Bitmex, PublicTrades, BitmexTrade>(map, json, out),
-        ("bybit_spot", K::Trades) => run_stateless::<BybitSpot, PublicTrades, BybitMessage>(map, json, out),
-        ("bybit_perpetuals_usd", K::Trades) => run_stateless::<BybitPerpetualsUsd, PublicTrades, BybitMessage>(map, json, out),
-        ("coinbase", K::Trades) => run_stateless::<Coinbase, PublicTrades, CoinbaseTrade>(map, json, out),
-        ("gateio_spot", K::Trades) => run_stateless::<GateioSpot, PublicTrades, GateioSpotTrade>(map, json, out),
-        ("gateio_futures_usd", K::Trades) => run_stateless::<GateioFuturesUsd, PublicTrades, GateioFuturesTrades>(map, json, out),
-        ("gateio_futures_btc", K::Trades) => run_stateless::<GateioFuturesBtc, PublicTrades, GateioFuturesTrades>(map, json, out),
-        ("gateio_perpetuals_usd", K::Trades) => run_stateless::<GateioPerpetualsUsd, PublicTrades, GateioFuturesTrades>(map, json, out),
-        ("gateio_perpetuals_btc", K::Trades) => run_stateless::<GateioPerpetualsBtc, PublicTrades, GateioFuturesTrades>(map, json, out),
-        ("gateio_options", K::Trades) => run_stateless::<GateioOptions, PublicTrades, GateioFuturesTrades>(map, json, out),
-        ("kraken", K::Trades) => run_stateless::<Kraken, PublicTrades, KrakenTrades>(map, json, out),
-        ("kraken", K::L1) => run_stateless::<Kraken, OrderBooksL1, KrakenOrderBookL1>(map, json, out),
-        ("okx", K::Trades) => run_stateless::<Okx, PublicTrades, OkxTrades>(map, json, out),
-        other => panic!("unsupported {other:?}"),
-    }
-}
-
-/// The `Subscribed` arm of `BitfinexWebSocketSubValidator::validate` (bitfinex/validator.rs:93-110),
-/// applied to the map directly (the validator itself needs a live WebSocket).
-fn bitfinex_subscribed(map: &mut Map<usize>, chan: &str, symbol: &str, chan_id: u32) {
-    let json = format!(
-        r#"{{"event":"subscribed","channel":{},"chanId":{},"symbol":{},"pair":"X"}}"#,
-        q(chan),
-        chan_id,
-        q(symbol)
-    );
-    let event: BitfinexPlatformEvent = serde_json::from_str(&json).expect("subscribed event");
-    let BitfinexPlatformEvent::Subscribed(response) = event else {
-        panic!("not a subscribed event")
-    };
-    let BitfinexSubResponse {
-        channel,
-        market,
-        channel_id,
-    } = &response;
-    let subscription_id = ExchangeSub::from((channel, market)).id();
-    if let Some(subscription) = map.0.remove(&subscription_id) {
-        map.0
-            .insert(SubscriptionId(channel_id.0.to_smolstr()), subscription);
-    }
-}
-
 fn run() {
     run_cases(|case, lines| {
-        let mut state: Option<(String, K, Map<usize>)> = None;
+        let mut state: Option<(String, K, Box<dyn Session>)> = None;
         for op in &case.ops {
             lines.push("@".into());
             match op[0].as_str() {
@@ -863,10 +943,10 @@ fn run() {
                     let kind = parse_kind(&op[2]);
                     let insts = parse_subs(&op[3..]);
                     match (kind, insts) {
-                        (Some(kind), Some(insts)) => match build_map(&op[1], kind, &insts) {
-                            Some(map) => {
-                                lines.push(fmt_map(&map));
-                                state = Some((op[1].clone(), kind, map));
+                        (Some(kind), Some(insts)) => match open_session(&op[1], kind, &insts) {
+                            Some(sess) => {
+                                lines.push(sess.map_line());
+                                state = Some((op[1].clone(), kind, sess));
                             }
                             None => lines.push("bad-op".into()),
                         },
@@ -874,23 +954,23 @@ fn run() {
                     }
                 }
                 "conf" if op.len() == 4 => match (&mut state, op[3].parse::<u32>()) {
-                    (Some((ex, _, map)), Ok(cid)) if ex == "bitfinex" => {
-                        bitfinex_subscribed(map, &op[1], &op[2], cid);
-                        lines.push(fmt_map(map));
+                    (Some((ex, _, sess)), Ok(cid)) if ex == "bitfinex" => {
+                        sess.conf(&op[1], &op[2], cid);
+                        lines.push(sess.map_line());
                     }
                     _ => lines.push("bad-op".into()),
                 },
                 "msg" => match (&state, parse_msg(&op[1..])) {
-                    (Some((ex, kind, map)), Some(msg)) if shape_ok(ex, *kind, &msg) => {
+                    (Some((ex, kind, sess)), Some(msg)) if shape_ok(ex, *kind, &msg) => {
                         let json = json_for(ex, *kind, &msg);
-                        transform(ex, *kind, map, &json, lines);
+                        sess.msg(&json, lines);
                     }
                     _ => lines.push("bad-op".into()),
                 },
                 // venue messages that are not market data (heartbeats, venue errors, command responses)
                 "noise" if op.len() == 2 => match (&state, noise_json(op[1].as_str())) {
-                    (Some((ex, kind, map)), Some((venues, json))) if venues.contains(&ex.as_str()) => {
-                        transform(ex, *kind, map, json, lines);
+                    (Some((ex, _, sess)), Some((venues, json))) if venues.contains(&ex.as_str()) => {
+                        sess.msg(json, lines);
                     }
                     _ => lines.push("bad-op".into()),
                 },
@@ -930,12 +1010,15 @@ struct GInst {
     kind: String, // S | P | Fyyyymmdd | Oyyyymmdd:k:C
     /// `Some(name_exchange)`: subscribed through `MarketInstrumentData` under this name, verbatim
     verbatim: Option<String>,
+    /// subscribed as a plain `MarketDataInstrument` (instrument key = the instrument itself)
+    unkeyed: bool,
 }
 
 impl GInst {
     fn tok(&self) -> String {
         match &self.verbatim {
             Some(name) => format!("@{name}:{}", self.kind),
+            None if self.unkeyed => format!("={}:{}:{}", self.base, self.quote, self.kind),
             None => format!("{}:{}:{}", self.base, self.quote, self.kind),
         }
     }
@@ -1064,7 +1147,11 @@ fn generate(seed: u64, n_cases: usize, tier: &str) {
         // a third of the cases subscribe through `MarketInstrumentData` (name_exchange verbatim): the name is
         // the venue's symbol for the underlying (70 %), that symbol in the wrong case (15 %), or ANOTHER
         // venue's symbol for the same underlying (15 %) - nothing normalises either
-        let verbatim_case = (id / PAIRS.len()) % 3 == 2;
+        let round = id / PAIRS.len();
+        let verbatim_case = round % 3 == 2;
+        // a quarter of the formatted cases (every fourth formatted round over the 21 pairs) subscribe the plain,
+        // un-keyed `MarketDataInstrument` (the first `Identifier<Market>` impl of every connector; the README form)
+        let unkeyed_case = !verbatim_case && ((round / 3) * 2 + round % 3) % 4 == 3;
         let mut insts: Vec<GInst> = Vec::new();
         for _ in 0..n_inst {
             let base = rng.pick(&ASSETS).to_string();
@@ -1072,7 +1159,7 @@ fn generate(seed: u64, n_cases: usize, tier: &str) {
             if quote.eq_ignore_ascii_case(&base) {
                 quote = "usdt".into();
             }
-            let mut inst = GInst { base, quote, kind: gen_kind(&mut rng, ex, iso_boundary), verbatim: None };
+            let mut inst = GInst { base, quote, kind: gen_kind(&mut rng, ex, iso_boundary), verbatim: None, unkeyed: unkeyed_case };
             if verbatim_case {
                 let sym = inst.venue_symbol(ex);
                 inst.verbatim = Some(match rng.below(100) {
@@ -1102,6 +1189,7 @@ fn generate(seed: u64, n_cases: usize, tier: &str) {
             quote: "dai".into(),
             kind: gen_kind(&mut rng, ex, iso_boundary),
             verbatim: None,
+            unkeyed: false,
         };
         // Bitfinex: the venue confirms (a subset of) the subscriptions with distinct channel ids, each
         // symbol at most once; now and then it confirms something that was never subscribed
